@@ -910,6 +910,8 @@ def gen_http_template(rng, toks, length, profile="mixed"):
         # a name in decomposed form (NFD, what macOS/iOS clients send): the working-tree file, the index
         # entry and the tree entry must all carry the name as the client wrote it
         paths.append(CAL + "/re\u0301union-cafe\u0301.ics")
+        # written first, with a UID of its own, so that it is a live member in every history
+        ops.append(("PUT", paths[-1], "text/calendar", toks.tok(gen_ical(rng, uid="nfd-member-uid")), "none", "none"))
     if profile in ("git", "mixed"):
         ops.append(("MKCOL", "/user/extra"))
         paths += ["/user/extra/e1.ics", "/user/extra/e2.ics", "/user/extra/a.ics"]   # a.ics: a namesake
